@@ -1292,6 +1292,8 @@ def replay(body):
             else:
                 print("REPLAY: unknown case", case)
                 return 3
+    for smp in acc.samples[-1:]:
+        print("REPLAY executed:", smp)
     for v in acc.violations.values():
         print("REPLAY violation:", v["kind"], "case=", v["case"])
         print("   observed=", v["observed"])
